@@ -64,7 +64,7 @@ func TdxPolicy(ctx context.Context, endorsement *epb.VMLaunchEndorsement, opts *
 	for _, m := range golden.Tdx.Measurements {
 		// If RAMGiB is 0, we try all measurements.
 		// If nonzero, skip sizes that don't match.
-		if opts.RAMGiB != 0 && m.GetRamGib() != uint32(opts.RAMGiB) {
+		if opts.RAMGiB != 0 && int64(m.GetRamGib()) != int64(opts.RAMGiB) {
 			continue
 		}
 		mrtds = append(mrtds, m.GetMrtd())
